@@ -36,6 +36,10 @@ fn one_query_case(rng: &mut Rng, single_pct: usize, oracle: OracleCfg, backend: 
 #[derive(Clone, Debug, Serialize, Deserialize)]
 pub struct C17Case {
     pub base: StaticCase,
+    /// when present the case is a HISTORY on a dynamic solver (the static `base` is ignored): the
+    /// fault is injected at a global SAT-call position of the history
+    #[serde(default)]
+    pub dynamic: Option<crate::props::dynamic::DynCase>,
     /// None: enumerate every (position, kind); Some: only these injections (replay files)
     pub plan: Option<Vec<Fault>>,
 }
@@ -52,6 +56,90 @@ fn fault_at(f: &Fault) -> u64 {
     match f {
         Fault::SatUnknown { at } | Fault::Child { at, .. } => *at,
     }
+}
+
+/// C17 on a dynamic solver: the fault is injected at every (sampled) global SAT-call position of a
+/// valid update/query history; the QUERY during which it fires must unwind.
+fn exec_dynamic_faults(d: &crate::props::dynamic::DynCase, plan: &Option<Vec<Fault>>) -> RunResult {
+    use crate::cases::{string_label, usize_label};
+    use crate::props::dynamic::exec_with_fault;
+    let mut r = RunResult::default();
+    let run = |f: &Option<Fault>| if d.string_labels { exec_with_fault(d, &string_label, f) } else { exec_with_fault(d, &usize_label, f) };
+    let dry = run(&None);
+    r.harness_error = dry.harness_error.clone();
+    r.count("sat_calls_dry", dry.calls);
+    r.count("dynamic_histories", 1);
+    let k_calls = dry.calls;
+    let plan: Vec<Fault> = match plan {
+        Some(p) => p.clone(),
+        None => {
+            let positions: Vec<u64> = if k_calls <= 8 {
+                (1..=k_calls).collect()
+            } else {
+                let mut prng = Rng::sub(d.oracle.seed ^ 0xD17, "positions");
+                let mut v: Vec<u64> = vec![1, k_calls];
+                while v.len() < 8 {
+                    let p = prng.range(1, k_calls as usize) as u64;
+                    if !v.contains(&p) {
+                        v.push(p);
+                    }
+                }
+                v.sort();
+                v
+            };
+            let mut plan = vec![];
+            for at in positions {
+                match d.backend {
+                    Backend::Sim => plan.push(Fault::SatUnknown { at }),
+                    Backend::Ext { .. } => {
+                        // three of the reply-fault kinds per position, rotating with the position
+                        for j in 0..3 {
+                            let kind = CHILD_FAULTS[(at as usize * 3 + j) % CHILD_FAULTS.len()];
+                            plan.push(Fault::Child { at, kind });
+                        }
+                    }
+                    Backend::Cadical | Backend::Process { .. } => {}
+                }
+            }
+            plan
+        }
+    };
+    let mut inter = Digest::default();
+    for f in &plan {
+        let out = run(&Some(f.clone()));
+        r.count("injections", 1);
+        if !out.fired {
+            r.count("injections_not_manifest", 1);
+            continue;
+        }
+        r.count(&format!("fault_fired_{}", fault_name(f)), 1);
+        inter.u64(fault_at(f));
+        inter.str(&fault_name(f));
+        match &out.at_step {
+            Some((_, _, true, _)) => r.count("aborted_as_required", 1),
+            Some((_, false, false, _)) => r.count("fault_during_update_not_judged", 1),
+            Some((step, true, false, what)) => {
+                r.violations.push(
+                    Violation::new("C17", "fault-became-answer", format!("dynamic solver {:?}, step {}: backend failure `{}` at SAT call {}/{} of the history, yet {}", d.solver, step, fault_name(f), fault_at(f), k_calls, what))
+                        .at("fault", fault_name(f))
+                        .at("backend", if d.backend == Backend::Sim { "trait" } else { "dimacs-parser" })
+                        .at("solver", format!("{:?}", d.solver))
+                        .at("inject", serde_json::to_string(f).unwrap()),
+                );
+            }
+            None => {}
+        }
+    }
+    let fired: u64 = r.counters.iter().filter(|(k, _)| k.starts_with("fault_fired_")).map(|(_, v)| *v).sum();
+    r.digest.str(&serde_json::to_string(d).unwrap());
+    r.digest.u64(inter.0);
+    if fired >= 1 {
+        let mut dg = Digest::default();
+        dg.str(&serde_json::to_string(d).unwrap());
+        r.nontrivial = Some(dg);
+        r.interleaving = Some(inter);
+    }
+    r
 }
 
 impl Property for C17 {
@@ -81,10 +169,22 @@ impl Property for C17 {
             oracle.policy = Policy::MaxTrue;
         }
         let base = one_query_case(&mut rng, 30, oracle, backend);
-        serde_json::to_value(C17Case { base, plan: None }).unwrap()
+        // one case in thirty is a history on a dynamic solver
+        let dynamic = if rng.chance(1, 30) {
+            use crate::props::dynamic::{gen_history, DynCase, DYN_KINDS, FACTORS};
+            let solver = *rng.pick(&DYN_KINDS);
+            let steps = gen_history(&mut rng, solver, 0);
+            Some(DynCase { solver, factor: rng.below(FACTORS.len()), string_labels: rng.bool(), oracle: base.oracle, backend: base.backend, steps })
+        } else {
+            None
+        };
+        serde_json::to_value(C17Case { base, plan: None, dynamic }).unwrap()
     }
     fn exec(&self, case: &Value) -> RunResult {
         let case: C17Case = serde_json::from_value(case.clone()).expect("C17 case");
+        if let Some(d) = &case.dynamic {
+            return exec_dynamic_faults(d, &case.plan);
+        }
         let base = normalise(&case.base);
         let mut r = RunResult::default();
         if base.queries.is_empty() {
@@ -214,15 +314,24 @@ impl Property for C17 {
             for v in &r.violations {
                 if let Some(inj) = v.site.get("inject") {
                     if let Ok(f) = serde_json::from_str::<Fault>(inj) {
-                        out.push(C17Case { base: case.base.clone(), plan: Some(vec![f]) });
+                        out.push(C17Case { base: case.base.clone(), plan: Some(vec![f]), dynamic: case.dynamic.clone() });
                     }
                 }
             }
             return out.into_iter().map(|c| serde_json::to_value(c).unwrap()).collect();
         }
+        if let Some(d) = &case.dynamic {
+            for steps in crate::framework::list_removals(&d.steps) {
+                let mut d2 = d.clone();
+                d2.steps = steps;
+                // positions shift when steps go: enumerate all positions again
+                out.push(C17Case { base: case.base.clone(), plan: None, dynamic: Some(d2) });
+            }
+            return out.into_iter().map(|c| serde_json::to_value(c).unwrap()).collect();
+        }
         for b in shrink_static(&case.base) {
             // positions may shift when the case shrinks: try the same injection and "enumerate all" variants
-            out.push(C17Case { base: b.clone(), plan: case.plan.clone() });
+            out.push(C17Case { base: b.clone(), plan: case.plan.clone(), dynamic: None });
         }
         if let Some(plan) = &case.plan {
             if let Some(f) = plan.first() {
@@ -231,7 +340,7 @@ impl Property for C17 {
                         Fault::SatUnknown { .. } => Fault::SatUnknown { at },
                         Fault::Child { kind, .. } => Fault::Child { at, kind: *kind },
                     };
-                    out.push(C17Case { base: case.base.clone(), plan: Some(vec![nf]) });
+                    out.push(C17Case { base: case.base.clone(), plan: Some(vec![nf]), dynamic: case.dynamic.clone() });
                 }
             }
         }
@@ -241,7 +350,7 @@ impl Property for C17 {
         Some(cli_part(tier, seed))
     }
     fn rule(&self) -> String {
-        "case = one query (SE/DC/DS, with or without certificate) of one static solver configuration on a generated framework, answered over either SimSat (trait level) or the real BufferedSatSolver reply parser over SimChild. Step 1: fault-free dry run recording the K SAT calls. Step 2: for EVERY call position 1..K (24 seeded positions incl. 1 and K when K > 24) and EVERY fault kind of the backend (trait: Unknown; parser: exit-without-output, status-without-model, model-without-status, truncated, garbage-line, two-status-lines, literal-out-of-range, crash-mid-output) the query is re-run with that fault; it must unwind. Injections whose reply still carries a well-formed verdict (fault on an UNSAT reply) are counted as not manifest and not judged. Non-trivial = at least one injection fired; distinct = distinct base case".into()
+        "case = (29 in 30) one query (SE/DC/DS, with or without certificate) of one static solver configuration on a generated framework, or (1 in 30) a valid update/query HISTORY on one of the eight dynamic solver kinds with the fault at every (<= 8 sampled) global SAT-call position of the history (parser level: three rotating reply-fault kinds per position): the query during which it fires must unwind, a fault firing inside an update is recorded and not judged; static cases are answered over either SimSat (trait level) or the real BufferedSatSolver reply parser over SimChild. Step 1: fault-free dry run recording the K SAT calls. Step 2: for EVERY call position 1..K (24 seeded positions incl. 1 and K when K > 24) and EVERY fault kind of the backend (trait: Unknown; parser: exit-without-output, status-without-model, model-without-status, truncated, garbage-line, two-status-lines, literal-out-of-range, crash-mid-output) the query is re-run with that fault; it must unwind. Injections whose reply still carries a well-formed verdict (fault on an UNSAT reply) are counted as not manifest and not judged. Non-trivial = at least one injection fired; distinct = distinct base case".into()
     }
     fn assumptions(&self) -> Vec<String> {
         vec![
